@@ -45,7 +45,8 @@ def data_arg(case):
     X = case["X"]
     if case.get("dask"):
         return sut.dask_rows(X, case["chunks"])
-    return X
+    how = case.get("how", "plain")
+    return sut.present(X, "plain" if how == "int" else how)
 
 
 def model_tol(ctx, got, want, X, what, rtol):
@@ -61,6 +62,7 @@ def g_step(draw):
     c["dask"] = gen.boolean(draw)
     c["chunks"] = gen.composition(draw, c["X"].shape[0])
     c["count_floor"] = gen.choice(draw, [EPS, EPS, 1e-6])
+    c["how"] = gen.presentation(draw)
     return c
 
 
@@ -94,6 +96,7 @@ def c_step(ctx, case):
 def g_traj(draw):
     c = gen.gmm_training_case(draw, max_rows=40 if gen.big() else 24)
     c["K"] = gen.integer(draw, 2, 8 if gen.big() else 6)
+    c["how"] = gen.presentation(draw)
     c["dask"] = gen.boolean(draw)
     c["chunks"] = gen.composition(draw, c["X"].shape[0], max_parts=6)
     return c
